@@ -207,7 +207,11 @@ def run(chk):
         dt, start = float(rng.choice(DT_LITS)), float(rng.choice(START_LITS))
         N = rng.randint(1, 12)
         record_all = rng.random() < 0.5
-        api = rng.choice(["compute_dynamics", "compute_dynamics_with_field", "compute_gradient_and_dynamics"])
+        api = rng.choice(["compute_dynamics", "compute_dynamics_with_field", "compute_gradient_and_dynamics", "state_gradient"])
+        if i in (4, 5):
+            api, record_all = "state_gradient", True        # the public wrapper (records everything)
+        if api == "state_gradient":
+            record_all = True
         if i < 4:
             # every run: the empty propagation (num_steps = 0: the grid is the start time alone), with a process tensor that is longer
             api, N, record_all = ["compute_dynamics", "compute_dynamics_with_field"][i % 2], 0, i < 2
@@ -237,7 +241,17 @@ def run(chk):
                 pt.set_mpo_tensor(kk, np.ones((1, 1, 4), dtype=complex))
             for kk in range(N + 1):
                 pt.set_cap_tensor(kk, np.ones(1, dtype=complex))
-            res = quiet(compute_gradient_and_dynamics, system=psys, parameters=np.zeros((2 * N, 1)), initial_state=_rho,
+            if api == "state_gradient":
+                pt2 = oqupy.process_tensor.SimpleProcessTensor(2, dt=dt)       # the wrapper takes the time step from the process tensor
+                for kk in range(N):
+                    pt2.set_mpo_tensor(kk, np.ones((1, 1, 4), dtype=complex))
+                for kk in range(N + 1):
+                    pt2.set_cap_tensor(kk, np.ones(1, dtype=complex))
+                res = quiet(oqupy.state_gradient, system=psys, initial_state=_rho, target_derivative=np.eye(2), process_tensors=[pt2], parameters=np.zeros((2 * N, 1)),
+                            start_time=start, progress_type="silent")
+                res = (res["gradient"], res["dynamics"]) if isinstance(res, dict) else res
+            else:
+              res = quiet(compute_gradient_and_dynamics, system=psys, parameters=np.zeros((2 * N, 1)), initial_state=_rho,
                         target_derivative=np.eye(2), process_tensors=[pt], dt=dt, num_steps=N, start_time=start,
                         record_all=record_all, progress_type="silent")
             dyn = res[1]
